@@ -28,8 +28,13 @@ WriteOps == {"write", "write_slice", "write_obj", "store", "copy_from", "copy_to
 
 CurOf(o) == [kind |-> o.kind, off |-> o.off, len |-> o.len, esz |-> o.esz, n |-> o.n]
 
-\* specification state rebuilt from the logged post-state of event e (N, B, P, root never change)
-Logged(s, e) == [s EXCEPT !.mem = e.s.mem, !.dirty = ToSet(e.s.dirty), !.cur = CurOf(e.s.cur)]
+\* specification state rebuilt from the logged post-state of event e (N, B, P, root never change).  A logged accessor
+\* that does not lie inside its container (an `extent` mismatch has been reported for it) is not adopted: the
+\* specification continues with its own accessor, so that its operators stay within their domains.
+SaneCur(s, o) == o.off >= 0 /\ o.len >= 0 /\ o.n >= 0 /\ o.off + o.len <= s.N
+Logged(s, e, fallback) == [s EXCEPT !.mem = IF Len(e.s.mem) = s.N THEN e.s.mem ELSE @,
+                                    !.dirty = ToSet(e.s.dirty),
+                                    !.cur = IF SaneCur(s, e.s.cur) THEN CurOf(e.s.cur) ELSE fallback]
 
 \* zero-sized element types, empty buffers: the domain of C18
 IsZst(e) == \/ ("esz" \in DOMAIN e.a /\ e.a.esz = 0)
@@ -40,7 +45,7 @@ ZeroLen(e) == \/ IsZst(e)
               \/ (e.op \in {"write", "write_slice"} /\ Len(e.a.buf) = 0)
               \/ (e.op \in {"read", "read_slice"} /\ e.a.bl = 0)
               \/ (e.op \in {"read_volatile_from", "read_exact_volatile_from", "write_volatile_to",
-                            "write_all_volatile_to"} /\ e.a.count = 0 /\ e.a.addr <= st.cur.len)
+                            "write_all_volatile_to", "write_to_cursor", "write_all_to_cursor"} /\ e.a.count = 0 /\ e.a.addr <= st.cur.len)
 
 \* every field the specification's result has (except the error variant) is logged with the same value
 ResEq(lr, xr) == /\ lr.k = xr.k
@@ -102,7 +107,7 @@ TraceNext ==
          THEN LET s0 == InitState(<<IF e.a.root = "region" THEN "region" ELSE "slice", e.a.n, e.a.b, e.a.p>>) IN
               /\ Judge("extent" \in Check => CurOf(e.s.cur) = s0.cur /\ e.s.canary, "extent", [cur |-> s0.cur])
               /\ Judge("dirty_precise" \in Check => e.s.dirty = <<>>, "dirty_precise", [dirty |-> {}])
-              /\ st' = Logged(s0, e)
+              /\ st' = Logged(s0, e, s0.cur)
               /\ last' = [op |-> "init", a |-> e.a, r |-> OkU]
          ELSE IF e.r.k = "skip"
          THEN /\ Judge(Apply(st, e.op, e.a).r.k = "skip", "skip", [res |-> Apply(st, e.op, e.a).r])
@@ -110,7 +115,7 @@ TraceNext ==
          ELSE LET x == Apply(st, e.op, e.a) IN
               /\ Judge(x.r.k # "skip", "skip", [res |-> x.r])
               /\ (x.r.k # "skip" => CheckEvent(e, x))
-              /\ st' = Logged(st, e)
+              /\ st' = Logged(st, e, x.st.cur)
               /\ last' = [op |-> e.op, a |-> e.a, r |-> x.r]
     /\ l' = l + 1
 
